@@ -56,6 +56,9 @@ pub fn expected_table(st: &St) -> Vec<(u64, u32, Option<i32>)> {
                 if l.two {
                     out.push((k as u64 + 2, mask_of(1, 0, true), None));
                 }
+                if l.sock_key.get() != 0 {
+                    out.push((l.sock_key.get() as u64, mask_of(1, 0, true), None));
+                }
             }
             K::Generic(g) => out.push((k as u64, mask_of(g.reg_interest, g.reg_mode, g.oneshot_armed), Some(g.own.0.as_raw_fd()))),
             K::Trans(t) => crate::transient::expected_entries(s, t, &mut out),
